@@ -29,3 +29,11 @@ def int_data_obligations(seed):
         obs.append(Ob(f"{name}: integer-typed data gives the same fitted model as its float copy", PROVED if ok else REFUTED, "native", "B",
                       dict(det, replayed=not ok), fn=f"{name}.fit"))
     return obs
+
+
+def offset_data_obligations(seed):
+    obs = []
+    for name, fails in R.offset_data(seed).items():
+        obs.append(Ob(f"{name}: data of large range (two groups 1e5 apart) still yields a coherent model", PROVED if not fails else REFUTED, "native", "B",
+                      {"failing": fails[:2], "replayed": bool(fails)}, fn=f"{name}.fit"))
+    return obs
